@@ -42,6 +42,10 @@ def shards(tier: str, seed: int) -> list:
                 for nsub in b["nsub"]:
                     for order in b["orders"]:
                         out.append({"layout": layout, "nbits": nbits, "nsblk": nsblk, "nsub": nsub, "order": order})
+    # NSTOT smaller than NSBLK x rows: the trailing samples of the last row are not valid data
+    for layout in ("coherence", "stokes"):
+        for short in (1, 2):
+            out.append({"layout": layout, "nbits": 8, "nsblk": 4, "nsub": 3, "order": "desc", "nstot_short": short})
     return out
 
 
@@ -63,8 +67,13 @@ def _make(wd, shard, seed):
     wts = rng.choice([1.0, 0.5, 0.25], size=(nsub, nchan))
     zero_off = 7.5 if nbits == 4 else 0.5
     path = str(wd / "syn.sf")
-    psrfits.make_psrfits(path, raw, nbits, layout, freqs, scl=scl, offs=offs, wts=wts, zero_off=zero_off)
+    nstot = None
+    if shard.get("nstot_short"):
+        nstot = nsub * nsblk - shard["nstot_short"]
+    psrfits.make_psrfits(path, raw, nbits, layout, freqs, scl=scl, offs=offs, wts=wts, zero_off=zero_off, nstot=nstot)
     want = psrfits.decode(raw, layout, freqs, scl, offs, wts, zero_off)
+    if nstot is not None:
+        want = want[:nstot]
     return path, want, freqs
 
 
@@ -161,6 +170,28 @@ def run_shard(shard: dict, ctx, res, only=None) -> None:
             res.outcome("read_block/ok")
             if start % nsblk and (start % nsblk) + ns > nsblk:
                 res.outcome("read_block/unaligned_crossing")
+                res.nontrivial += 1
+    # ---- channel selection by first-channel frequency (same contract as the SIGPROC reader)
+    cf = np.asarray(rdr.header.chan_freqs, dtype=np.float64)
+    for k in range(C):
+        for m in range(1, C - k + 1):
+            if not run("select", [k, m]):
+                continue
+            res.evaluations += 1
+            case = {"shard": shard, "inner": ["select", [k, m]]}
+            try:
+                b = rdr.read_block(1, min(3, N - 1), fch1=float(cf[k]), nchans=m)
+            except Exception as e:  # noqa: BLE001
+                res.violation({"site": "PFITSReader.read_block(fch1,nchans)", "symptom": f"raised {type(e).__name__}"}, case, f"fch1={cf[k]} nchans={m}: {e!r}")
+                continue
+            want_sel = W[k : k + m, 1 : 1 + min(3, N - 1)]
+            lab = np.asarray(b.header.chan_freqs, dtype=np.float64)
+            if b.data.shape != want_sel.shape or not np.array_equal(np.asarray(b.data), want_sel) or b.header.nchans != m or not np.allclose(lab, cf[k : k + m], atol=1e-3):
+                res.violation({"site": "PFITSReader.read_block(fch1,nchans)", "symptom": "rows or labels do not match the requested channels"}, case,
+                              f"fch1={cf[k]} nchans={m}: labels {lab.tolist()} shape {b.data.shape}")
+                continue
+            res.outcome("read_block/selection_ok")
+            if k > 0:
                 res.nontrivial += 1
     # ---- read_plan
     for g in range(1, N + 3):
